@@ -165,7 +165,9 @@ def collect_gae_cases(ck, n):
             fc, fs, fh = e["final[counters,s,h]"]
             obs = env.observation(rebuild_state(env, fc, fs), key=tree.key(ep + ((2, 1),)))
             last = float(pol.value(TabPState(jnp.asarray(fh)), obs)[1])
-            rows = [(r["rew"], r["val"], r["done"]) for r in e["rows"]]
+            # episode ends as an independent step observer saw them (ctx.done of a user callback), NOT the buffer's own dones field:
+            # the estimates must be cut where the episodes really ended
+            rows = [(r["rew"], r["val"], r["cb_done"]) for r in e["rows"]]
             adv = [r["adv"] for r in e["rows"]]; ret = [r["ret"] for r in e["rows"]]
             jj = {"api": f"collect_rollout ({j['algo']}, env {i} of {N}, vmapped={j['vmapped']})", "gamma": j["gamma"], "lambda": j["lambda"],
                   "last_value": last, "rows[reward,value,done]": rows, "impl_advantages": adv, "impl_returns": ret, "rollout": j}
